@@ -168,6 +168,27 @@ def native_savgol(rng):
             ys = SM.non_uniform_savgol(x, y, window, order)
             if not np.allclose(ys, y, atol=1e-6 * max(1.0, np.abs(y).max())):
                 bad.append(("savgol does not reproduce a polynomial", n, window, order, deg, float(np.abs(ys - y).max())))
+    # integer / lattice abscissae with missing samples: consecutive windows share their end points but not their interior points
+    for case in range(6):
+        n = int(rng.integers(40, 90))
+        keep = np.ones(n, bool)
+        keep[rng.choice(np.arange(3, n - 3), int(rng.integers(3, 10)), replace=False)] = False
+        x = np.arange(n)[keep].astype(float)
+        for order, window in ((2, 5), (3, 7), (3, 11)):
+            for deg in range(0, order + 1):
+                coef = rng.standard_normal(deg + 1)
+                y = np.polyval(coef, (x - x.mean()) / x.std())
+                ys = SM.non_uniform_savgol(x, y, window, order)
+                if not np.allclose(ys, y, atol=1e-6 * max(1.0, np.abs(y).max())):
+                    bad.append(("savgol does not reproduce a polynomial on a lattice with gaps", n, window, order, deg, float(np.abs(ys - y).max())))
+    # through the NaN-filling wrapper: a cubic sampled on the integers with NaN gaps comes back as the cubic everywhere
+    tt = np.arange(120, dtype=float)
+    cub = 1e-4 * (tt - 60) ** 3 - 0.02 * (tt - 60) ** 2 + 0.3 * tt + 2
+    gap = cub.copy()
+    gap[[7, 15, 16, 40, 44, 47, 80, 81, 82, 101]] = np.nan
+    out = SM.smooth_interpolate_savgol(gap, window=7, order=3)
+    if out.shape != gap.shape or not np.allclose(out, cub, atol=1e-6 * np.abs(cub).max()):
+        bad.append(("smooth_interpolate_savgol does not reproduce a cubic through NaN gaps", float(np.nanmax(np.abs(out - cub)))))
     sig = np.sin(np.arange(200) / 15.0)
     sig[[5, 50, 51, 52, 120, 199]] = np.nan
     out = SM.smooth_interpolate_savgol(sig, window=11, order=3)
@@ -177,7 +198,7 @@ def native_savgol(rng):
 
 
 @bounded(PROPERTY, "native_conservation", bound="Venn: 2 and 3 sorters, chunk sizes {120, 480, 1200, 6000} samples, last spike on / off a chunk boundary (quick 16 runs, thorough 64); cadzow on 1x8, 2x10, 4x12 layouts at full rank / plane wave at rank 2 with niter 1, 2; "
-         "svd_denoise_npx full rank / rank one / per collection; Savitzky-Golay degrees 0..order on random abscissae (12 cases), NaN filling; constants and lengths through lp / rolling_window; stack fold",
+         "svd_denoise_npx full rank / rank one / per collection; Savitzky-Golay degrees 0..order on random abscissae (12 cases), lattices with gaps (6 x 3 settings), a cubic through NaN gaps; constants and lengths through lp / rolling_window; stack: default / mean / sum / median / nanmean x float32/64 x 3 label patterns x with/without NaN, header means, fold",
          clause="rank-reduction identities, polynomial reproduction, constants, lengths, spike conservation, fold")
 def b_native(B):
     rng = np.random.default_rng(B.seed)
@@ -203,10 +224,26 @@ def b_native(B):
                     if y.shape != (n,) or not np.allclose(y, c):
                         bad.append(("rolling_window constant/length", n, wl, win))
     B.case("smoothers_constants_lengths", not bad, detail=bad[:5])
-    data = rng.standard_normal((30, 7))
-    word = rng.integers(0, 5, 30)
-    st, fold = V.stack(data, word, fcn_agg=np.mean)
-    ok = True
-    for i, g in enumerate(np.unique(word)):
-        ok = ok and np.allclose(st[i], data[word == g].mean(axis=0)) and fold[i] == np.sum(word == g)
-    B.case("stack_fold", bool(ok) and st.shape == (np.unique(word).size, 7), detail="stack aggregates / fold")
+    bad = []
+    for dt in (np.float64, np.float32):
+        for labels in ("random", "interleaved", "contiguous"):
+            data = rng.standard_normal((30, 7)).astype(dt)
+            word = {"random": rng.integers(0, 5, 30), "interleaved": np.arange(30) % 4 * 10, "contiguous": np.repeat(np.arange(5), 6) + 3}[labels]
+            for with_nan in (False, True):
+                d = data.copy()
+                if with_nan:
+                    d[rng.integers(0, 30, 9), rng.integers(0, 7, 9)] = np.nan
+                for name, fcn, ref in (("default", None, np.nanmean), ("mean", np.mean, np.mean), ("sum", np.sum, np.sum), ("median", np.median, np.median), ("nanmean", np.nanmean, np.nanmean)):
+                    hdr = {"offset": np.arange(30, dtype=float)}
+                    st, hs = V.stack(d.copy(), word, header=hdr) if fcn is None else V.stack(d.copy(), word, fcn_agg=fcn, header=hdr)
+                    groups = np.unique(word)
+                    with np.errstate(all="ignore"):
+                        want = np.stack([ref(d[word == g], axis=0) for g in groups])
+                    ok = st.shape == (groups.size, 7) and np.allclose(st, want, equal_nan=True, rtol=1e-5, atol=1e-6)
+                    ok = ok and np.array_equal(hs["fold"], [np.sum(word == g) for g in groups]) and np.allclose(hs["offset"], [hdr["offset"][word == g].mean() for g in groups])
+                    if not ok:
+                        bad.append((name, labels, dt.__name__, "nan" if with_nan else "finite"))
+    st, fold = V.stack(rng.standard_normal((12, 3)), np.arange(12) // 3)
+    if not np.array_equal(fold, [3, 3, 3, 3]):
+        bad.append(("fold without header",))
+    B.case("stack_aggregates_fold_header", not bad, detail=bad[:6])
